@@ -42,7 +42,8 @@ FINAL_STATUS = {"addSuccess": "success", "addFailure": "fail", "addError": "fail
 
 def run_one(tape, opts):
     out = Outcome()
-    hist = pl.gen_history(tape, extras=False, rich_details=True, test_kinds=("testcase", "placeholder"))
+    hist = pl.gen_history(tape, extras=False, rich_details=True, test_kinds=("testcase", "placeholder"),
+                          max_tests=9 if opts.get("tier") == "thorough" else 5)
     clock = vclock.VClock()
     vclock.install(clock)
     world = World()
